@@ -129,9 +129,12 @@ theorem gen_units (pi x : K) :
 
 end wiring
 
-/-- the polarisation string is lower-cased before the dispatch (three-valued recogniser: an unrecognised normalisation makes
-the item `untranslatable`; upper-case inputs are exercised on the real code) -/
-theorem gen_structure : stackPolarizationLowercased = true := by decide
+/-- three-valued recognisers (`false` = recognised and wrong; an unrecognised shape makes the item `untranslatable`): the
+polarisation string is lower-cased before the dispatch; the Snell-angle buffer is complex (it must not inherit the dtype of the
+caller's stack: integer stacks, evanescent gaps); no in-place operator or element store touches the arguments or the views
+`indices` / `thicknesses` of the caller's array -/
+theorem gen_structure :
+    stackPolarizationLowercased = true ∧ stackAngleBufferIsComplex = true ∧ stackNoInPlaceOnCallerData = true := by decide
 
 /-! ## Fresnel coefficients (over the generated formulas) -/
 section fresnel
